@@ -7,6 +7,7 @@ package checks
 import (
 	"encoding/json"
 	"fmt"
+	"hash/fnv"
 	"sort"
 
 	"verif/harness/internal/ast"
@@ -141,8 +142,32 @@ func diffRun(c diffCase) (p port.Outcome, r refOutcome, mismatch string, skip bo
 		return p, r, "", true
 	}
 	p = port.Run(c.Text, c.Input)
-	return p, r, compareOutcomes(c, p, r), false
+	mismatch = compareOutcomes(c, p, r)
+	// The reference describes what the program denotes on the input, whatever
+	// the compiled expression was used for before: every fourth case is also
+	// evaluated through an expression that has just been evaluated on another
+	// document (same member names, other shapes and values).
+	h := fnv.New32a()
+	h.Write([]byte(c.Text))
+	h.Write([]byte(c.Input))
+	if mismatch == "" && h.Sum32()%4 == 0 && p.Kind != port.KCompileError && p.Kind != "bad_input" {
+		if e, o := port.Compile(c.Text); o == nil {
+			other, _ := port.DecodeJSON(diffOtherInput)
+			port.Eval(e, other)
+			var in interface{}
+			if c.Input != "" {
+				in, _ = port.DecodeJSON(c.Input)
+			}
+			p2 := port.Eval(e, in)
+			if m2 := compareOutcomes(c, p2, r); m2 != "" {
+				return p2, r, "evaluated through a compiled expression that had been evaluated on another input before: " + m2, false
+			}
+		}
+	}
+	return p, r, mismatch, false
 }
+
+const diffOtherInput = `{"a":[{"b":[7,8],"a":"first"},{"b":{"a":9},"c":[]}],"b":{"a":[1,2,3],"c":"first-b"},"c":[["x"],"y"],"items":[{"k":"q","v":41,"n":5,"g":"h"},{"k":"r","v":42,"n":6,"g":"h"}],"o":{"k":"first"},"n":99,"s":"first input","x":-1,"l":"left","r":"right"}`
 
 func diffReplay(raw json.RawMessage) string {
 	var c diffCase
